@@ -59,8 +59,31 @@ def run(tier="quick", replay=None):
         p_args = params.get("args", 3)
         p_value = params.get("value", 4)
         shas = [(bb, t) for bb, t in f.calls() if callee_of(t) == SHA]
-        R.floor("R13.O1", "sha256tree calls in add_defun", len(shas), 1, ADD_DEFUN)
+        helper_hashes = []
+        if not shas:
+            # one level of helper: g(x) = sha256tree(x.code ...) called with an argument deriving from `value`
+            for bb, t in f.calls():
+                g = prog.fn(callee_of(t) or "")
+                if g is None or not (t.get("callee_local") or t.get("target_local")):
+                    continue
+                gfl = Flow(g)
+                for gb, gt in g.calls():
+                    if callee_of(gt) == SHA:
+                        gl = op_local(gt["args"][0])
+                        gsrc = gfl.back_pure([gl]) if gl is not None else set()
+                        gparams = [x for x in gsrc if 1 <= x <= g.argc]
+                        if len(gparams) == 1 and "code" in fields_read_into(g, gfl, gsrc) and 0 in gfl.forward([gt["dest"]["l"]]):
+                            helper_hashes.append((bb, t, gparams[0] - 1, g.path))
+        R.floor("R13.O1", "sha256tree calls in add_defun", len(shas) + len(helper_hashes), 1, ADD_DEFUN)
         hash_locals = set()
+        for bb, t, argi, gpath in helper_hashes:
+            l = op_local(t["args"][argi])
+            src = fl.back_pure([l]) if l is not None else set()
+            ok = p_value in src and not ({p_name, p_args} & src)
+            R.check(ok, "R13.O1", "R13.O1|hash-input", f.loc(bb),
+                    "auto: %s(value) = sha256tree(<its argument>.code); the argument derives from parameter `value` only" % gpath,
+                    "add_defun hashes (through %s) something other than the code it stores" % gpath, fn=f.path)
+            hash_locals |= fl.forward([t["dest"]["l"]])
         for bb, t in shas:
             l = op_local(t["args"][0])
             src = fl.back_pure([l]) if l is not None else set()
